@@ -244,6 +244,8 @@ class SymbolicExpression(Generic[T], ABC):
 
     @_parent_.setter
     def _parent_(self, value: Optional[SymbolicExpression]):
+        # the parent a previous evaluation installed says nothing about the tree once this node is moved
+        self._eval_parent_ = None
         self._node_.parent = value._node_ if value is not None else None
         if value is not None and hasattr(value, "_child_"):
             value._child_ = self
